@@ -224,6 +224,14 @@ class Engine(object):
         self.global_hooks = {}
         from . import specfuncs
         specfuncs.install(self)
+        import os
+        from .symex import load_hints
+        hd = os.path.join(os.path.dirname(os.path.dirname(
+            os.path.abspath(__file__))), 'contracts', 'hints')
+        if os.path.isdir(hd):
+            for fn in sorted(os.listdir(hd)):
+                if fn.endswith('.json'):
+                    load_hints(os.path.join(hd, fn))
 
     # -- registry -----------------------------------------------------------
     def add(self, contract):
@@ -537,6 +545,7 @@ class Engine(object):
             for ob in ctx.obligations:
                 ob.id = '%s#%s@p%d' % (name.split('.', 1)[-1], ob.label,
                                        seen)
+                ob.func = name
                 verdict.obligations.append(ob)
             work.extend(ctx.alternatives)
         verdict.paths = seen
@@ -652,9 +661,19 @@ def discharge(obligations, timeout_s=20, jobs=12, solvers=('z3', 'cvc5')):
         slices = pre[id(ob)]
         t_used = 0.0
         last = None
+        # refinement on the full VC before the (slow) monolithic attempt
         for name, text in slices:
             full = (name == 'full')
-            budget = timeout_s if full else min(timeout_s, 6)
+            if name == 'cegar':
+                r = smt.solve_text(text, timeout_s=min(timeout_s, 25),
+                                   solvers=('cegar',), want_model=False)
+                t_used += r.time_s
+                if r.status == smt.UNSAT:
+                    r.time_s = t_used
+                    return ob, r
+                continue
+            budget = timeout_s if full else min(
+                timeout_s, 3 if name.startswith('rand') else 6)
             r = smt.solve_text(text, timeout_s=budget, solvers=solvers,
                                want_model=full)
             t_used += r.time_s
